@@ -4,7 +4,7 @@ import numpy as np
 from common import *
 import procgen as pg
 
-PROP_MODULES = ["HvsrVerif.Props.C01", "HvsrVerif.Props.C01Laws", "HvsrVerif.Props.C01Methods"]
+PROP_MODULES = ["HvsrVerif.Props.C01", "HvsrVerif.Props.C01Laws", "HvsrVerif.Props.C01Methods", "HvsrVerif.Props.C01Rot", "HvsrVerif.Props.C01Diffuse"]
 BRIDGE_MODULES = ["HvsrVerif.Bridge.C01", "HvsrVerif.Bridge.PyCombine", "HvsrVerif.Bridge.PyAzimuth"]
 
 
